@@ -39,6 +39,10 @@ def cases(rng, tier):
         if c['e'] >= 1 and c['nt'] >= 2 and c['g0'] == 1 and c['ev'] is None and 'mix' not in c:
             if (c['ct'], c['cv']) == (1, 1): grid.append(dict(c, peek=2))
             if (c['ct'], c['cv']) == (0, 0): grid.append(dict(c, peek=1))
+    # parameters frozen when the optimizer is built and unfrozen by the training callback in the second epoch
+    for c in list(grid):
+        if c['e'] >= 2 and c['nt'] >= 2 and c['g0'] == 1 and c['ct'] == 1 and c['ev'] is None and 'mix' not in c and 'peek' not in c:
+            grid.append(dict(c, frz=1))
     # the Trainer object constructed under another gradient mode than the one it is used in
     for c in list(grid):
         if c['e'] >= 1 and c['nv'] and (c['ct'], c['cv'], c['ev']) == (0, 0, None) and 'mix' not in c:
@@ -108,11 +112,17 @@ def _run_fit(c):
             return super().forward(x)
 
     model = Model(nn.Linear(F, 4), nn.BatchNorm1d(4), nn.Dropout(0.25), nn.Linear(4, 1 if c['ev'] == 'binary' else K))
+    if c.get('frz'):                      # the first layer is frozen when the optimizer is built and unfrozen by a callback later
+        for p_ in model.submodules()[0].parameters(): p_.requires_grad = False
     inner = optim.SGD(model.parameters(), lr=0.05, momentum=0.5)
+    cleared = [True]
 
     class Opt:
         def zero_grad(self):
             trace.append('z'); inner.zero_grad()
+            for p_ in model.parameters():     # "each update is preceded by clearing the gradients": of every trainable parameter
+                if p_.requires_grad and p_._grad is not None and np.any(p_._grad):
+                    cleared[0] = False
         def step(self):
             trace.append('s'); inner.step()
 
@@ -160,8 +170,11 @@ def _run_fit(c):
     def snap():
         bn = model.submodules()[1]
         return [p.data.copy() for p in model.parameters()] + [bn.running_mean.data.copy(), bn.running_var.data.copy(), np.array(bn.num_batches_tracked)]
+    ncb = [0]
     def cbT(m, l):
         trace.append('ct')
+        ncb[0] += 1
+        if c.get('frz') and ncb[0] == 2: model.unfreeze()
         if c.get('peek') == 2: next(iter(l), None)          # the callback looks at a batch of the loader it is handed
     def cbV_peek(l):
         if c.get('peek') == 2: next(iter(l), None)
@@ -234,7 +247,7 @@ def _run_fit(c):
     if c['kind'] == 'test':
         return (f"trace={','.join(trace) or '_'} steps={trace.count('s')} training={training} grad={int(g_after)}", {'valpure': pure[0], 'lossmean': True})
     return (f"trace={','.join(trace) or '_'} steps={trace.count('s')} training={training} grad={int(g_after)} keys={keys}",
-            {'valpure': pure[0], 'lossmean': ok_mean})
+            {'valpure': pure[0], 'lossmean': ok_mean, 'cleared': cleared[0]})
 
 
 def _run_acc(c):
@@ -288,6 +301,8 @@ def compare(c, mo, io):
             diffs.append(('valpure', 'validation changes no parameter / statistic', 'changed'))
         if fl.get('lossmean') is False:
             diffs.append(('lossmean', 'epoch loss = mean of batch losses', 'differs'))
+        if fl.get('cleared') is False:
+            diffs.append(('cleared', 'zero_grad clears the gradient of every trainable parameter', 'a gradient survived'))
     return diffs
 
 
@@ -362,6 +377,8 @@ def oracle(c):
         return fail('valpure', 'validation changed a parameter or running statistic')
     if not fl['lossmean']:
         return fail('lossmean', 'reported epoch loss is not the mean of the batch losses')
+    if fl.get('cleared') is False:
+        return fail('cleared', 'an update was not preceded by clearing the gradients: after optimizer.zero_grad() a trainable parameter still held a non-zero gradient')
     keys = {} if f['keys'] == '_' else dict((k, int(v)) for k, v in (kv.split(':') for kv in f['keys'].split(',')))
     want = {}
     if c['e'] > 0:
